@@ -235,9 +235,19 @@ func sizeBand(n int) string {
 // c01Run executes one scenario: optional warm-up message, then msgs, sender
 // kind S, receiver kind R, mode enc. Returns the result for the runner.
 func c01Run(id, S, R string, enc, warm bool, msgs []c01Msg) *vlib.Result {
+	return c01RunMode(id, S, R, enc, false, warm, msgs)
+}
+
+// c01RunMode: keyedClear = both streams hold a session key but crypto mode is off (the
+// wire is plaintext; the third state a stream can be in besides "no key" and "encrypting").
+func c01RunMode(id, S, R string, enc, keyedClear, warm bool, msgs []c01Msg) *vlib.Result {
 	res := &vlib.Result{Evals: 1}
 	sb := &netsim.Buf{}
 	snd := stream.NewStream(sb)
+	if keyedClear {
+		_ = snd.SetSymmetricKey(testKey)
+		snd.SetCryptoMode(false)
+	}
 	if enc {
 		if err := snd.SetSymmetricKey(testKey); err != nil {
 			res.Violate("C01/harness", "SetSymmetricKey: %v", err)
@@ -260,6 +270,9 @@ func c01Run(id, S, R string, enc, warm bool, msgs []c01Msg) *vlib.Result {
 	mode := "plain"
 	if enc {
 		mode = "enc"
+	}
+	if keyedClear {
+		mode = "keyed-not-encrypting"
 	}
 	typed := S == "typed" || S == "typedchar" || S == "putstring" || S == "putstringbytes"
 	rejected := false
@@ -314,6 +327,10 @@ func c01Run(id, S, R string, enc, warm bool, msgs []c01Msg) *vlib.Result {
 	rcv := stream.NewStream(rb)
 	if enc {
 		_ = rcv.SetSymmetricKey(testKey)
+	}
+	if keyedClear {
+		_ = rcv.SetSymmetricKey(testKey)
+		rcv.SetCryptoMode(false)
 	}
 	for i, want := range sent {
 		rk := R
@@ -403,7 +420,7 @@ func composition(n int, mask uint) []int {
 func C01Plan() *vlib.Plan {
 	p := &vlib.Plan{
 		Property: "C01", Level: "exploration",
-		Rule:   "E-ENUM: (a) every composition of every message length <= N into writes, every flush subset for the typed sender, x sender kind x receiver kind x {plain, AES-GCM} x {first, later frame position}; short sequences of 2-3 messages; (b) sizes T+d for T in {0,4096,16384,1MiB,2MiB}, |d|<=34, as one write and as two-write cuts. Non-trivial = sender accepted and at least one frame reached the receiver; IDs are distinct by construction.",
+		Rule:   "E-ENUM: (a) every composition of every message length <= N into writes, every flush subset for the typed sender, x sender kind x receiver kind x {plain, AES-GCM} x {first, later frame position}; short sequences of 2-3 messages; the sequences and sizes around the 4 KiB / 16 KiB thresholds also on streams that hold a key with crypto mode off; (b) sizes T+d for T in {0,4096,16384,1MiB,2MiB}, |d|<=34, as one write and as two-write cuts. Non-trivial = sender accepted and at least one frame reached the receiver; IDs are distinct by construction.",
 		Assume: []string{"payload byte pattern (i*131+m*17) mod 251 makes loss/duplication/reordering visible", "fixed AES key; IV random per stream"},
 	}
 	p.Gen = func(tier string, yield func(vlib.Case)) {
@@ -483,6 +500,44 @@ func C01Plan() *vlib.Plan {
 								return c01Run(id, S, R, enc, warm, ms)
 							}})
 						}
+					}
+				}
+			}
+		}
+		// (a') the third stream state: a session key is installed but crypto mode is off. The
+		// wire is plaintext, and it must round-trip exactly like a stream without a key
+		// (empty messages, empty trailing frames at the flush threshold, large typed values).
+		for _, warm := range []bool{false, true} {
+			for _, R := range recvs {
+				for _, S := range []string{"send", "write", "partial", "typed"} {
+					for code := 0; code < 4*4*5; code++ {
+						l1, l2, l3 := code%4, (code/4)%4, code/16-1
+						S, R, warm := S, R, warm
+						id := fmt.Sprintf("k-seq/S=%s/R=%s/keyed-not-encrypting/warm=%v/l=%d,%d,%d", S, R, warm, l1, l2, l3)
+						yield(vlib.Case{ID: id, Run: func() *vlib.Result {
+							var ms []c01Msg
+							for i, l := range []int{l1, l2, l3} {
+								if l < 0 {
+									continue
+								}
+								m := c01Msg{data: payload(i+2, l)}
+								if S != "send" && l > 0 {
+									m.parts = composition(l, (1<<uint(l-1))-1)
+									m.flush = 0b101
+								}
+								ms = append(ms, m)
+							}
+							return c01RunMode(id, S, R, false, true, warm, ms)
+						}})
+					}
+				}
+				for _, S := range []string{"send", "write", "typed"} {
+					for _, n := range []int{0, 1, 4095, 4096, 4097, 8192, 16383, 16384, 16385, 20000, 40000} {
+						S, R, warm, n := S, R, warm, n
+						id := fmt.Sprintf("k-size/S=%s/R=%s/keyed-not-encrypting/warm=%v/n=%d", S, R, warm, n)
+						yield(vlib.Case{ID: id, Run: func() *vlib.Result {
+							return c01RunMode(id, S, R, false, true, warm, []c01Msg{{data: payload(3, n)}})
+						}})
 					}
 				}
 			}
